@@ -54,6 +54,10 @@ func (sp *SAMLServiceProvider) buildLogoutResponse(statusCodeValue string, reqID
 	statusCode.CreateAttr("Value", statusCodeValue)
 
 	doc := etree.NewDocument()
+	// Write CR (and TAB/LF in attribute values) as character references: a recipient's
+	// XML parser would otherwise normalize them and the signed content would change.
+	doc.WriteSettings.CanonicalText = true
+	doc.WriteSettings.CanonicalAttrVal = true
 
 	// Only POST binding includes <Signature> in <AuthnRequest> (includeSig)
 	if includeSig {
